@@ -24,6 +24,7 @@ import (
 	"strings"
 	"sync"
 	"sync/atomic"
+	"syscall"
 	"time"
 
 	"github.com/nspcc-dev/neofs-node/pkg/local_object_storage/blobstor/common"
@@ -82,7 +83,12 @@ type Spec struct {
 	OpMarks    bool         `json:"op_marks"`
 	LockWorker bool         `json:"lock_workers"` // concurrent workers pin their threads too
 	WatchdogMs int          `json:"watchdog_ms"`
-	ResultPath string       `json:"result"`
+	// Pad makes the main thread issue Pad dummy fdatasync(-1)/close(-1) calls before "start". strace counts
+	// inject ordinals per thread: with the padding, ordinals <= Pad of these two syscalls can only be reached by
+	// OTHER threads (the batch sync timer), ordinals > Pad only by the main thread, so both kinds of instances
+	// are addressable separately.
+	Pad        int    `json:"pad"`
+	ResultPath string `json:"result"`
 }
 
 func (s *Spec) String() string {
@@ -290,6 +296,10 @@ func run() int {
 		progress.Add(1)
 	}
 
+	for i := 0; i < s.Pad; i++ {
+		_ = syscall.Fdatasync(-1)
+		_ = syscall.Close(-1)
+	}
 	sysinject.Mark("start")
 	idx := 0
 	for _, ph := range s.Phases {
